@@ -176,12 +176,13 @@ def run_scenario(case, observer=None):
             if kindname == "MainController" and str(rep) == "sw":
                 # a software failure of the main controller in this increment, through the real draw (failure rate raised for one
                 # increment, generator answering: no hardware failure, software failure, cured by the new signal).  The controller's
-                # own recovery time is then handed to the sub-controllers with an open breaker: outside the loop model, oracle only.
-                state["devfail"] = True
+                # own recovery time is then handed to the sub-controllers with an open breaker (model: `ctl swfail <hours>`, emitted
+                # right before the control step of this increment).
                 if l.state.name == "OK":
                     state["restore"] = (l, l.software_fail_rate_per_year, l.ps_random)
                     l.software_fail_rate_per_year = 1e15
                     l.ps_random = net.SeqRng([1, 0, 1])
+                    state["sw_pending"] = True
                 continue
             if kindname == "MainController":
                 # the main controller goes down for `rep` hours (hardware failure under manual repair): the sub-controllers
@@ -246,11 +247,16 @@ def run_scenario(case, observer=None):
         return type(c).__name__ == "MainController" and c.state.name == "OK"
 
     def loop(curr_time, dt):
+        sw = None
+        if state.pop("sw_pending", False):
+            # the software failure has been drawn in update_fail_status of this increment; the controller's recovery time has
+            # been handed to the sub-controllers with an open breaker (model: spreadSec, then the step: ops `sstep` / `sastep`)
+            sw = fr(F(ps.controller.sectioning_time.get_hours()))
         if automatic_now():
             rs, ri = comm_bits()
-            op = f"ctl astep {fr(dt.get_hours())} {rs} {ri}"
+            op = f"ctl astep {fr(dt.get_hours())} {rs} {ri}" if sw is None else f"ctl sastep {sw} {fr(dt.get_hours())} {rs} {ri}"
         else:
-            op = f"ctl step {fr(dt.get_hours())}"
+            op = f"ctl step {fr(dt.get_hours())}" if sw is None else f"ctl sstep {sw} {fr(dt.get_hours())}"
         orig_loop(curr_time=curr_time, dt=dt)
         ops.append(op)
         impl.append(show(v.snapshot()))
